@@ -306,6 +306,52 @@ def run(ctx):
                 if stats["solver_history_crashes"] <= 3:
                     ctx.notes.append("%s history crashed with %r after %r" % (cls.__name__, ex, hist[-1:]))
                 continue
+    # ---- solver level with floats: constraints that pin a float only up to IEEE equality (fpEQ(x, +0.0) has the models +0.0
+    # and -0.0; fpEQ(x, x) excludes NaN) and queries that tell such values apart
+    import struct as _struct
+
+    def f2b(v):
+        return _struct.unpack("<Q", _struct.pack("<d", v))[0]
+    cand = [0.0, -0.0, 1.0, -1.0, 2.5, float("inf"), float("-inf"), float("nan"), 5e-324, -5e-324]
+    nfs = 0
+    for cls in (claripy.Solver, claripy.SolverCacheless, claripy.SolverComposite, claripy.SolverHybrid, claripy.SolverReplacement):
+        for it in range(ctx.pick(25, 250)):
+            tf = claripy.FPS("sf", claripy.FSORT_DOUBLE, explicit_name=True)
+            k = rng.choice([0.0, -0.0, 1.0, 2.5, float("inf")])
+            K = claripy.FPV(k, claripy.FSORT_DOUBLE)
+            cons_pool = [(claripy.fpEQ(tf, K), lambda v, k=k: v == k), (claripy.fpEQ(K, tf), lambda v, k=k: v == k), (tf == K, lambda v, k=k: v == k),
+                         (claripy.fpLEQ(tf, K), lambda v, k=k: v <= k), (claripy.fpGEQ(tf, K), lambda v, k=k: v >= k), (claripy.fpEQ(tf, tf), lambda v: v == v),
+                         (claripy.Not(claripy.fpIsNaN(tf)), lambda v: v == v), (claripy.fpIsInf(tf), lambda v: v in (float("inf"), float("-inf")))]
+            q_pool = [(claripy.fpToIEEEBV(tf) == f2b(k), lambda v, k=k: v == v and f2b(v) == f2b(k)), (claripy.fpToIEEEBV(tf)[63:63] == 1, lambda v: v == v and f2b(v) >> 63 == 1),
+                      (claripy.fpIsNaN(tf), lambda v: v != v), (claripy.fpLT(tf, K), lambda v, k=k: v < k), (claripy.fpEQ(tf, K), lambda v, k=k: v == k),
+                      (claripy.fpGT(claripy.fpDiv(claripy.fp.RM.RM_NearestTiesEven, claripy.FPV(1.0, claripy.FSORT_DOUBLE), tf), claripy.FPV(0.0, claripy.FSORT_DOUBLE)),
+                       lambda v: (v > 0 or (v == 0 and f2b(v) == 0)) and v != float("inf") or v == float("inf") and False or (v == 0 and f2b(v) == 0)),
+                      (claripy.fpNeg(tf) == K, lambda v, k=k: (-v) == k)]
+            chosen = rng.sample(cons_pool, rng.choice([1, 1, 2]))
+            sol = cls()
+            try:
+                for c_, _ in chosen:
+                    sol.add(c_)
+                models = [v for v in cand if all(fn(v) for _, fn in chosen)]
+                for q, qf in rng.sample(q_pool, 3):
+                    if q is q_pool[5][0]:
+                        # 1/x > 0: written out (the lambda above is only a placeholder): true for +0.0 (1/+0 = +inf) and positive finite values
+                        qf = lambda v: (v > 0 and v != float("inf")) or (v == 0 and f2b(v) == 0)      # noqa: E731
+                    vals = {bool(qf(v)) for v in models}
+                    both = [("T", sol.is_true), ("F", sol.is_false)]
+                    if rng.random() < 0.5:
+                        both.reverse()
+                    ctx.count(); nfs += 1
+                    for kind, fn in both:
+                        if fn(q) and ((kind == "T" and False in vals) or (kind == "F" and True in vals)):
+                            cex = next(v for v in models if bool(qf(v)) == (kind != "T"))
+                            ctx.violation("C10/%s.%s/fp-not-entailed" % (cls.__name__, "is_true" if kind == "T" else "is_false"),
+                                          "%s(constraints=%s).%s(%r) is True but sf = %r (bits %#x) satisfies the constraints and refutes it" % (
+                                              cls.__name__, [c_ for c_, _ in chosen], "is_true" if kind == "T" else "is_false", q, cex, f2b(cex)),
+                                          {"solver": cls.__name__, "constraints": [repr(c_) for c_, _ in chosen], "query": repr(q), "value_bits": f2b(cex)})
+            except claripy.errors.ClaripyError:
+                continue
+    stats["fp_solver_queries"] = nfs
     # ---- the Z3 backend asked directly, from fresh threads that run strictly one after the other (each thread has its own Z3
     # context, so converted expressions and their ids start afresh): a True answer must hold for every assignment
     import threading
